@@ -6,6 +6,7 @@ pub fn run(which: &str) {
         "c07_publish_minutxo" => c07_publish_minutxo(),
         "c12_inputs" => c12_inputs(),
         "c14_sites" => crate::c14::run(),
+        "c13_inputs" => c13_inputs(),
         _ => panic!("unknown scenario {which}"),
     }
 }
@@ -65,5 +66,46 @@ fn c12_inputs() {
             }
         });
         match r { Ok(m) => println!("OK    {:60} -> {}", src.replace('\n'," "), m), Err(_) => println!("PANIC {:60}", src.replace('\n'," ")) }
+    }
+}
+
+fn c13_inputs() {
+    let cases: Vec<(&str,&str)> = vec![
+        ("record constructor missing a field, no spread", "party P; type R { a: Int, b: Int, } tx t() { input s { from: P, min_amount: Ada(2000000), } output { to: P, amount: Ada(2000000), datum: R { a: 1, }, } }"),
+        ("Ada() with no argument", "party P; tx t() { input s { from: P, min_amount: Ada(), } output { to: P, amount: Ada(1), } }"),
+        ("min_utxo() arity", "party P; tx t() { output o { to: P, amount: min_utxo(), } }"),
+        ("tip_slot(1) arity", "party P; tx t() { validity { since_slot: tip_slot(1), } output { to: P, amount: Ada(1), } }"),
+        ("slot_to_time() arity", "party P; tx t() { validity { since_slot: slot_to_time(), } output { to: P, amount: Ada(1), } }"),
+        ("time_to_slot() arity", "party P; tx t() { validity { since_slot: time_to_slot(), } output { to: P, amount: Ada(1), } }"),
+        ("party called as a function", "party P; tx t() { output { to: P, amount: P(1), } }"),
+        ("odd-length hex literal", "party P; tx t() { output { to: P, amount: Ada(1), datum: 0xabc, } }"),
+        ("type name used as a value", "party P; type R { a: Int, } tx t() { output { to: P, amount: R, } }"),
+        ("asset name used as a value", "party P; asset A = 0xab.0xcd; tx t() { output { to: P, amount: A, } }"),
+        ("builtin function name used as a value", "party P; tx t() { output { to: P, amount: min_utxo, } }"),
+        ("withdrawal without from", "party P; tx t() { cardano::withdrawal { amount: 1, redeemer: (), } output { to: P, amount: Ada(1), } }"),
+        ("withdrawal without amount", "party P; tx t() { cardano::withdrawal { from: P, redeemer: (), } output { to: P, amount: Ada(1), } }"),
+        ("policy constructor without hash, referenced", "party P; policy Q { script: 0xabcd, } tx t() { output { to: Q, amount: Ada(1), } }"),
+        ("property that resolves in the parent scope but is not a field", "party P; type R { a: Int, } tx t(q: Int, r: R) { output { to: P, amount: Ada(r.q), } }"),
+        ("property on a non-record value", "party P; tx t(q: Int) { output { to: P, amount: Ada(q.q), } }"),
+        ("implicit constructor on a variant type", "party P; type V { A { x: Int, }, B, } tx t() { output { to: P, amount: Ada(1), datum: V { x: 1, }, } }"),
+        ("case of another type", "party P; type V { A { x: Int, }, B, } type W { C, } tx t() { output { to: P, amount: Ada(1), datum: V::C {}, } }"),
+        ("struct constructor on a party name", "party P; tx t() { output { to: P, amount: Ada(1), datum: P { x: 1, }, } }"),
+        ("alias of a primitive used as struct type", "party P; type I = Int; tx t() { output { to: P, amount: Ada(1), datum: I { x: 1, }, } }"),
+        ("datum_is input field", "party P; type R { a: Int, } tx t() { input s { from: P, datum_is: R, min_amount: Ada(1), } output { to: P, amount: Ada(1), } }"),
+        ("property access on a party (no target type)", "party P; tx t(q: Int) { output { to: P, amount: Ada(P.q), } }"),
+        ("nested constructor naming a case of the enclosing type", "party P; type V { A, } type W { C { f: V, }, } tx t() { output { to: P, amount: Ada(1), datum: W::C { f: V::C {}, }, } }"),
+        ("undefined identifier", "party P; tx t() { output { to: P, amount: Ada(zzz), } }"),
+    ];
+    for (name, src) in cases {
+        let r = std::panic::catch_unwind(|| {
+            let mut ws = tx3_lang::Workspace::from_string(src.to_string());
+            if let Err(e) = ws.parse() { return format!("parse error: {e}"); }
+            ws.analyze().unwrap();
+            let n = ws.analisis().unwrap().errors.len();
+            if n > 0 { return format!("analysis reports {} error(s): {}", n, ws.analisis().unwrap().errors[0]); }
+            let ast = ws.ast().unwrap();
+            match tx3_lang::lowering::lower(ast, "t") { Ok(_) => "analysis clean; lowering Ok".to_string(), Err(e) => format!("analysis clean; lowering Err({e})") }
+        });
+        match r { Ok(m) => println!("{:62} -> {}", name, m), Err(_) => println!("{:62} -> analysis clean; lowering PANIC", name) }
     }
 }
